@@ -378,6 +378,19 @@ theorem channelDim_flat (ks : List (Mat α)) (d_in d_out : Nat) (hs : Shaped ks 
     channelDimKraus (KrausArg.flat ks) true .none = .ok ⟨d_in, d_in, d_out, d_out, some ks.length⟩ :=
   channelDimKraus_cp ks d_in d_out hs h
 
+/-! ## the scalars of the compiled model -/
+
+/-- **The driver's Gaussian integers are an instance of the theorems' hypotheses.**  `GI` with the core-class
+    instances of `Toq/Core/Scalar.lean` (the ones the compiled driver computes with) is a commutative
+    star-ring (`giCommRing`, `giStarRing`), and its `+`, `*`, `0`, `1` and conjugation are *definitionally* the
+    ones these ring instances provide — so every theorem of this file speaks about the very functions the
+    correspondence check runs. -/
+theorem driver_scalars_are_a_star_ring :
+    (inferInstanceAs (Add GI)) = giCommRing.toAdd ∧ (inferInstanceAs (Mul GI)) = giCommRing.toMul ∧
+    (inferInstanceAs (Zero GI)) = giCommRing.toZero ∧ (inferInstanceAs (One GI)) = giCommRing.toOne ∧
+    (instHasConjGI : HasConj GI) = starHasConj :=
+  gi_instances_agree
+
 /-! ## non-vacuity -/
 
 /-- the hypotheses are satisfiable and the model computes: the transpose map on 2×2 matrices given by the
